@@ -122,7 +122,7 @@ Definition show_gbar (m : string) (b : gbar) : string :=
   "GANTT " ++ m ++ " " ++ show_nat (gb_row b) ++ " " ++ show_Z (gb_x20 b) ++ " " ++ show_Z (gb_w20 b) ++ " "
   ++ show_Z (gb_tx20 b) ++ " " ++ gb_text b.
 Definition export_report (s : solution) : list string :=
-  map (fun r => "DF " ++ show_task (df_name r) ++ " [" ++ join "," (df_resources r) ++ "] " ++ show_Z (df_start r) ++ " "
+  map (fun r => "DF " ++ show_task (df_name r) ++ " [" ++ join "," (map resobj_name (df_resources r)) ++ "] " ++ show_Z (df_start r) ++ " "
                 ++ show_Z (df_end r) ++ " " ++ show_Z (df_duration r) ++ " " ++ show_bool (df_scheduled r)) (df_rows s)
   ++ map (show_cellop "R") (resource_sheet s) ++ map (show_cellop "T") (task_sheet s)
   ++ map (fun '(i, k, v) => "XLS I " ++ show_nat i ++ " " ++ k ++ " = " ++ show_Z v) (indicator_sheet s).
